@@ -74,6 +74,7 @@ class Exactness:
         self.sites: List[Tuple[FuncInfo, ast.Call, str, Optional[ast.AST], bool]] = []  # Branch(...) sites reached
         self.casts: List[Tuple[FuncInfo, ast.Call, str, bool]] = []  # int(...) casts reached
         self.freq_updates: List[Tuple[FuncInfo, ast.AST, str, bool]] = []  # x.frequency op= value
+        self.fractions: List[Tuple[FuncInfo, ast.Call, bool]] = []  # Fraction(a, b) constructions reached
 
     # ---- function summaries -----------------------------------------------------------------------
     def returns(self, fn: FuncInfo, shots_none: bool, arg_kinds: Dict[str, str]) -> str:
@@ -319,6 +320,7 @@ class Interp:
         ak = [self.kind(a) for a in c.args]
         kk = {k.arg: self.kind(k.value) for k in c.keywords if k.arg}
         if last == "Fraction":
+            self.ex.fractions.append((self.fn, c, self.shots_none))
             if len(ak) == 2:
                 return FRAC if ak[0] in (INT, FRAC) and ak[1] in (INT, FRAC) else TOP
             if len(ak) == 1:
